@@ -48,7 +48,7 @@ var props = map[string]propCfg{
 	"C11": {
 		Flavor: "worker-plain", Level: "exploration",
 		QuickRuns: 1 << 30, QuickDL: 50 * time.Second, ThorDL: 30 * time.Minute, ThorSeeds: 5,
-		Rule: "a run = one generated driver program (typed slot arrays of ints, strings, slices, maps, linked structs, closures, interface values, struct values; one exported step function with 100-170 operations: copy, clear, pass through calls and multiple results, scope exit, defer, append, reslice, element/field store and load, box, type-assert, capture, call; chosen per block of runs and compiled by the real compiler) and one tape-drawn history of 1..300 (thorough 1500) operations, executed on fresh instances with the plain allocator and under a tape-drawn allocator fault mode (wrap_poison = real allocator with dirty fresh memory and poison on free; sim_lifo = immediate reuse; sim_quarantine = freed blocks must keep the poison; sim_scatter = tape-chosen placement). Oracles: every free is of a live block, HeapAlloc results read zero, quarantined blocks stay poisoned, and every step returns the same value with and without the fault. Non-trivial = at least one block was freed under the fault mode; distinct = distinct event-log digests.",
+		Rule:      "a run = one generated driver program (typed slot arrays of ints, strings, slices, maps, linked structs, closures, interface values, struct values; one exported step function with 100-170 operations: copy, clear, pass through calls and multiple results, scope exit, defer, append, reslice, element/field store and load, box, type-assert, capture, call; chosen per block of runs and compiled by the real compiler) and one tape-drawn history of 1..300 (thorough 1500) operations, executed on fresh instances with the plain allocator and under a tape-drawn allocator fault mode (wrap_poison = real allocator with dirty fresh memory and poison on free; sim_lifo = immediate reuse; sim_quarantine = freed blocks must keep the poison; sim_scatter = tape-chosen placement). Oracles: every free is of a live block, HeapAlloc results read zero, quarantined blocks stay poisoned, and every step returns the same value with and without the fault. Non-trivial = at least one block was freed under the fault mode; distinct = distinct event-log digests.",
 		Real:      []string{"Wa compiler pipeline (loader, type checker, SSA, WAT backend retain/release emission)", "reference-counting runtime heap.wat.ws", "runtime map.wa / string.wa / interface.wa", "watutil.Wat2Wasm", "vendored wazero", "real allocator in plain and wrap_poison modes"},
 		Stub:      []string{"$runtime.malloc/$runtime.free/$runtime.HeapAlloc seam (WAT text rewrite to host functions)", "host allocator in sim_* modes", "loop fuel counter", "initial memory size (256 pages)"},
 		Assume:    append([]string{"programs are the structured drivers of harness/wagen, not arbitrary programs of the C01 subset", "an identical trap in both modes is reported as harness trouble, not as a C11 violation"}, commonAssume...),
@@ -57,7 +57,7 @@ var props = map[string]propCfg{
 	"C12": {
 		Flavor: "worker-plain", Level: "exploration",
 		QuickRuns: 1 << 30, QuickDL: 50 * time.Second, ThorDL: 20 * time.Minute, ThorSeeds: 5,
-		Rule: "a run = one generated driver (as for C11; references only point downward in a level order, Node.next only to strictly smaller rank, so no operation can build a cycle) and a tape-drawn loop body of 1..40 operations followed by 'drop every slot', iterated 8, 64, 256 (thorough: up to 1024) times by exported calls; the host-side malloc/free accounting gives the number and bytes of live blocks after every iteration; after 2 warm-up iterations they must be identical for every iteration, and the real allocator's heap extent must not grow across three consecutive checkpoints. No fault is injected (conservation check). Non-trivial = the body freed at least one block; distinct = distinct event-log digests.",
+		Rule:      "a run = one generated driver (as for C11; references only point downward in a level order, Node.next only to strictly smaller rank, so no operation can build a cycle) and a tape-drawn loop body of 1..40 operations followed by 'drop every slot', iterated 8, 64, 256 (thorough: up to 1024) times by exported calls; the host-side malloc/free accounting gives the number and bytes of live blocks after every iteration; after 2 warm-up iterations they must be identical for every iteration, and the real allocator's heap extent must not grow across three consecutive checkpoints. No fault is injected (conservation check). Non-trivial = the body freed at least one block; distinct = distinct event-log digests.",
 		Real:      []string{"Wa compiler pipeline", "reference-counting runtime", "runtime map.wa / string.wa", "real allocator", "watutil.Wat2Wasm", "vendored wazero"},
 		Stub:      []string{"$runtime.malloc/$runtime.free seam used for accounting only", "loop fuel counter", "initial memory size (256 pages)"},
 		Assume:    append([]string{"no fault or schedule dimension: decided as a conservation check over the allocation history the C11 seam records", "loop bodies are sequences of driver operations, not arbitrary loops"}, commonAssume...),
